@@ -188,6 +188,7 @@ func TestC09(t *testing.T) {
 	r := NewRecorder(t, "C09")
 	defer r.Close(t)
 	queueDiff(r, 2, pick(8, 16), allSeqs(), "queue-exh")
+	queueLarge(r, "queue-large")
 	rng := newRand(9)
 	for i := 0; i < pick(100, 400); i++ { // larger sequence spaces, sampled
 		s := 17 + rng.Intn(239)
